@@ -25,3 +25,4 @@ def ev_probe(w, ev):
 from . import probes_io  # noqa: E402,F401  (registers probes)
 from . import probes_text  # noqa: E402,F401
 from . import probes_c15  # noqa: E402,F401
+from . import probes_misc  # noqa: E402,F401
